@@ -287,7 +287,24 @@ func (g *Gen) run() (err error) {
 				}
 				est := bst.clone()
 				est.r = g.define("x", "Bool", and(bst.r, g.edgeCond(b, s)))
-				env := g.env(est, g.scopeAt(s, b, est))
+				// follow forwarding blocks (a lone jump, e.g. the body of `break`) so that
+				// variables assigned on the way out have their value at the join
+				from, to := b, s
+				for len(to.Succs) == 1 && len(to.Preds) == 1 {
+					fwd := true
+					for _, in := range to.Instrs {
+						switch in.(type) {
+						case *ssa.Jump, *ssa.DebugRef:
+						default:
+							fwd = false
+						}
+					}
+					if !fwd {
+						break
+					}
+					from, to = to, to.Succs[0]
+				}
+				env := g.env(est, g.scopeAt(to, from, est))
 				for j, a := range li.spec.After {
 					g.assertExpr(est, env, fmt.Sprintf("loop%d", li.ord), fmt.Sprintf("after%d", j+1), a, li.spec.AfterSrc[j], li.minPos)
 				}
